@@ -512,6 +512,9 @@ class VcfReader:
         self._genotype_likelihoods = genotype_likelihoods
         self._ignore_genotypes = ignore_genotypes
         self.samples = list(self._vcf_reader.header.samples)  # intentionally public
+        # If set (to a collection of sample names), the ploidy requirements apply to these
+        # samples only
+        self.samples_of_interest: Optional[Set[str]] = None
         self.contigs = self._vcf_reader.header.contigs
         self.ploidy = ploidy
         self.mav = mav
@@ -733,7 +736,18 @@ class VcfReader:
             if not self._ignore_genotypes:
                 # check for ploidy consistency and limits
                 genotype_lists = [call.get("GT", None) for call in record.samples.values()]
-                for geno in genotype_lists:
+                if self.samples_of_interest is None:
+                    checked = genotype_lists
+                else:
+                    # Only the samples that are worked on have to be of one ploidy. Calls of other
+                    # samples with a different ploidy (such as a haploid call of a male sample on
+                    # chrX) are treated as missing; the records themselves are not affected
+                    checked = [
+                        geno
+                        for sample, geno in zip(self.samples, genotype_lists)
+                        if sample in self.samples_of_interest
+                    ]
+                for geno in checked:
                     if geno is None or None in geno:
                         continue
                     geno_ploidy = len(geno)
@@ -749,6 +763,15 @@ class VcfReader:
                             "Inconsistent ploidy ({} and " "{})".format(self.ploidy, geno_ploidy)
                         )
 
+                if self.samples_of_interest is not None and self.ploidy is not None:
+                    genotype_lists = [
+                        geno
+                        if sample in self.samples_of_interest
+                        or geno is None
+                        or len(geno) == self.ploidy
+                        else None
+                        for sample, geno in zip(self.samples, genotype_lists)
+                    ]
                 genotypes = [genotype_code(geno_list) for geno_list in genotype_lists]
             else:
                 genotypes = [Genotype([]) for _ in self.samples]
